@@ -7,18 +7,21 @@
   not filter boundaries;
 * `Kernel.evaluate` / `Kernel.toSlidingWindow` (a sampled function whose values sum to 0 makes the
   normalisation divide by zero) and the kernel functions of `UniformKernel`, `TriangularKernel`,
-  `EpanechnikovKernel` (tracklib/core/kernel.py); a user-defined kernel (`Kernel` + `setFunction`)
-  given by a table of values at the integers (`tableF`); the other kernel functions (`math.exp`,
-  `math.pow`) are a function parameter;
+  `EpanechnikovKernel`, `CubicKernel`, `SphericKernel` (`math.pow` with an integer exponent is a
+  product), `GaussianKernel`, `ExponentialKernel` (`math.exp` and the constant `math.sqrt(2*math.pi)`
+  are parameters) (tracklib/core/kernel.py); a user-defined kernel (`Kernel` + `setFunction`)
+  given by a table of values at the integers (`tableF`); any other kernel function is a function
+  parameter;
 * `Track.operate(Operator.FILTER, af_in, kernel, af_out)` on a track seen as named signals
   (`operate`): a kernel given as the name of a feature, the order of the failures (kernel
   preparation, even window, reserved output name, empty track, unknown input feature), the
-  creation of the output feature;
+  creation of the output feature; the argument forms of `Track.operate` (`operateArgs`: output name
+  omitted, lists of input / output names filtered pair by pair with the same kernel object);
 * `filter_seq` (tracklib/algo/filtering.py): integer kernel, one-element list, the dispatch on `dim`
   (default argument / module constant `FILTER_…` / list / a single `str` walked character by
   character; coordinates written through the feature `temp`, other names filtered in place), and
   `Track.smooth`; the module-level state a call can read (`Globals`) is threaded through a
-  `session` of calls.
+  `session` of calls; `filterSeqRepeat`: the same track filtered several times with the same kernel object.
 
 Scalars are polymorphic (`Rat` and `Float` in the driver, an ordered field in the theorems);
 NaN is `none`. A signal is a `List (Option α)`. Core Lean only. -/
@@ -32,6 +35,8 @@ inductive Err where
   | feature      -- unknown analytical feature, or a reserved name (x, y, z, t, timestamp, idx) as output feature
   | emptyTrack   -- `createAnalyticalFeature` on a track without observation (AnalyticalFeatureError)
   | nanKernel    -- a kernel given as a feature name whose values contain NaN (every weight becomes NaN): not modelled
+  | kernelType   -- a number given as kernel: `len(kernel)` in the kernel preparation raises TypeError
+  | operands     -- `Track.operate` with lists of input and output names of different lengths (OperatorError, in fact a NameError)
   deriving DecidableEq, Repr
 
 section core
@@ -159,6 +164,33 @@ def epanechnikovF (size x : α) : α :=
   (((3 : Nat) : α) / ((4 : Nat) : α) * (1 - (x / size) * (x / size)) * ind (absv x ≤ size)) / size
 def epanechnikovSupport (size : α) : α := onePointFive * size
 
+/-- `math.pow(a, n)` for the integer exponents `n` used by `CubicKernel` and `SphericKernel` -/
+def powN (a : α) : Nat → α
+  | 0 => 1
+  | n + 1 => powN a n * a
+
+/-- `CubicKernel(sigma)`: `f = lambda x: 1-(7*math.pow((abs(x)/sigma),2) - 35/4*math.pow((abs(x)/sigma),3)
++ 7/2*math.pow((abs(x)/sigma),5) - 3/4*math.pow((abs(x)/sigma),7))`, support `sigma` -/
+def cubicF (sigma x : α) : α :=
+  1 - (((7 : Nat) : α) * powN (absv x / sigma) 2 - ((35 : Nat) : α) / ((4 : Nat) : α) * powN (absv x / sigma) 3
+    + ((7 : Nat) : α) / ((2 : Nat) : α) * powN (absv x / sigma) 5 - ((3 : Nat) : α) / ((4 : Nat) : α) * powN (absv x / sigma) 7)
+def cubicSupport (sigma : α) : α := sigma
+
+/-- `SphericKernel(sigma)`: `f = lambda x: 1-(3/2*abs(x)/sigma - 1/2*math.pow(abs(x)/sigma,3))`, support `sigma` -/
+def sphericF (sigma x : α) : α :=
+  1 - (((3 : Nat) : α) / ((2 : Nat) : α) * absv x / sigma - (1 : α) / ((2 : Nat) : α) * powN (absv x / sigma) 3)
+def sphericSupport (sigma : α) : α := sigma
+
+/-- `GaussianKernel(sigma)`: `f = lambda x: math.exp(-0.5 * (x / sigma) ** 2) / (sigma * math.sqrt(2 * math.pi))`,
+support `3 * sigma`; `expF` stands for `math.exp`, `sqrt2pi` for `math.sqrt(2 * math.pi)` -/
+def gaussianF (expF : α → α) (sqrt2pi : α) (sigma x : α) : α :=
+  expF (-((1 : α) / ((2 : Nat) : α)) * ((x / sigma) * (x / sigma))) / (sigma * sqrt2pi)
+def gaussianSupport (sigma : α) : α := ((3 : Nat) : α) * sigma
+
+/-- `ExponentialKernel(sigma)`: `f = lambda x: math.exp(-abs(x) / sigma) / (2 * sigma)`, support `3 * sigma` -/
+def exponentialF (expF : α → α) (sigma x : α) : α := expF (-(absv x) / sigma) / (((2 : Nat) : α) * sigma)
+def exponentialSupport (sigma : α) : α := ((3 : Nat) : α) * sigma
+
 /-- the `kernel` argument of `Filter.execute` -/
 inductive KArg (α : Type) where
   /-- a Python list of weights (normalised in place by the call) -/
@@ -197,6 +229,8 @@ inductive SeqArg (α : Type) where
   | k (a : KArg α)
   /-- a `str`: `Filter.execute` takes the values of that feature (or coordinate) of the track as weights -/
   | feat (name : String)
+  /-- a `float` (the documented "half width of a rectangular window"): neither an `int`, a list nor a Kernel -/
+  | num
 
 /-- a track seen by `filter_seq`: named signals (`x`, `y`, `z`, then the analytical features) -/
 abbrev Sigs (α : Type) := List (String × List (Option α))
@@ -235,6 +269,8 @@ def nextKernel (kern : KArg α) : Option (List α) → KArg α
 inductive KSrc (α : Type) where
   | arg (a : KArg α)
   | feat (name : String)
+  /-- a number: `np.sum(np.array(kernel))` passes, `len(kernel)` raises TypeError -/
+  | num
 
 /-- `if isinstance(kernel, str): kernel = track.getAnalyticalFeature(kernel)` (a fresh list: the
 feature itself is not normalised) -/
@@ -244,12 +280,14 @@ def resolve (t : Sigs α) : KSrc α → Except Err (KArg α)
     match getSig t name with
     | none => .error .feature
     | some w => if w.any (·.isNone) then .error .nanKernel else .ok (.list (w.filterMap id))
+  | .num => .error .kernelType
 
 /-- the object bound to the caller's `kernel` after the call (a `str` is immutable) -/
 def nextSrc (kern : KSrc α) (k' : Option (List α)) : KSrc α :=
   match kern with
   | .arg a => .arg (nextKernel a k')
   | .feat n => .feat n
+  | .num => .num
 
 /-- `track.operate(Operator.FILTER, af_in, kernel, af_out)` (`ScalarVoidOperator` with a `str` first
 argument, i.e. `Filter.execute(track, af_in, kernel, af_out)`), in the order of the Python: kernel
@@ -276,6 +314,41 @@ def operate [BEq α] (t : Sigs α) (afIn : String) (kern : KSrc α) (afOut : Str
           | .error e => .error e
           | .ok out => .ok (nextSrc kern k', out, setSig t1 afOut out)
 
+/-- the first and third arguments of `Track.operate(Operator.FILTER, arg1, kernel, arg3)` (`Filter` is a
+`ScalarVoidOperator`): one feature name or a list of them; `arg3` may be omitted (`None`) -/
+inductive OpNames where
+  /-- `arg1` is a `str`: one call of `Filter.execute`, whose result is returned -/
+  | one (afIn : String) (afOut : Option String)
+  /-- `arg1` is a list: one call per pair `(arg1[i], arg3[i])`, nothing is returned -/
+  | many (ins : List String) (outs : Option (List String))
+  deriving DecidableEq, Repr
+
+/-- `for i in range(len(arg1)): operator.execute(self, arg1[i], arg2, arg3[i])`: the kernel is the same Python
+object at every turn (a weight list is normalised again each time), each turn sees the track as the former left it -/
+def operatePairs [BEq α] : List (String × String) → KSrc α → Sigs α → Except Err (KSrc α × Sigs α)
+  | [], kern, t => .ok (kern, t)
+  | (i, o) :: rest, kern, t =>
+    match operate t i kern o with
+    | .error e => .error e
+    | .ok (kern', _, t') => operatePairs rest kern' t'
+
+/-- `Track.operate(Operator.FILTER, arg1, kernel[, arg3])`, the branch of `ScalarVoidOperator`:
+`if arg3 == None: arg3 = arg1` (output into the input feature); a `str` → `return operator.execute(...)`;
+lists → lengths compared (`OperatorError`), then one call per pair and `None` returned.
+Returns the caller's kernel after the call, the returned list if any, and the track. -/
+def operateArgs [BEq α] (t : Sigs α) (kern : KSrc α) : OpNames → Except Err (KSrc α × Option (List (Option α)) × Sigs α)
+  | .one i o =>
+    match operate t i kern (o.getD i) with
+    | .error e => .error e
+    | .ok (k', out, t') => .ok (k', some out, t')
+  | .many ins outs =>
+    let outs' := outs.getD ins
+    if ins.length ≠ outs'.length then .error .operands
+    else
+      match operatePairs (ins.zip outs') kern t with
+      | .error e => .error e
+      | .ok (k', t') => .ok (k', none, t')
+
 /-- the loop `for af in dim` of `filter_seq`; the weight list, if any, is the same Python object
 for every dimension, so it is re-normalised at each call. A coordinate is filtered into the feature
 `temp` and copied back (`setXFromAnalyticalFeature`), any other name is filtered in place. -/
@@ -298,6 +371,7 @@ def filterSeq [BEq α] (t : Sigs α) (kernel : SeqArg α) (dim : List String) : 
     | .int n => .arg (.list (List.replicate n.toNat 1))
     | .k a => .arg a
     | .feat n => .feat n
+    | .num => .num
   match kern with
   | .arg (.list [_]) => .ok t
   | _ => seqLoop dim kern t
@@ -344,6 +418,34 @@ def filterSeqCall [BEq α] (g : Globals) (t : Sigs α) (kernel : SeqArg α) (dim
   match dimNames g dim with
   | none => none
   | some names => some (filterSeq t kernel names, g)
+
+/-- `kernel[i] /= np.sum(np.array(kernel))` done `n` times on the same list -/
+def normaliseN (k : List α) : Nat → List α
+  | 0 => k
+  | n + 1 => normaliseN (normalise k) n
+
+/-- the Python object bound to the caller's `kernel` after `filter_seq(track, kernel, dim)` has returned
+normally: a weight list (not of length one) has been divided by its sum once per dimension; an `int` (the list
+`[1]*n` is local to the function), a Kernel object and a feature name (a fresh list is read at every call) are
+what they were -/
+def seqKernelAfter (kernel : SeqArg α) (names : List String) : SeqArg α :=
+  match kernel with
+  | .k (.list l) => if l.length == 1 then kernel else .k (.list (normaliseN l names.length))
+  | _ => kernel
+
+/-- `filter_seq(track, kernel, dim)` called `n` times in a row on the same track with the same `kernel` and
+`dim` objects (smoothing again what has been smoothed): the track after every call; stops at the first failure.
+The second call finds the scratch feature `temp` in the track and a weight list already normalised. -/
+def filterSeqRepeat [BEq α] (g : Globals) (t : Sigs α) (kernel : SeqArg α) (dim : DimArg) :
+    Nat → List (Option (Except Err (Sigs α) × Globals))
+  | 0 => []
+  | n + 1 =>
+    match dimNames g dim with
+    | none => [none]
+    | some names =>
+      match filterSeq t kernel names with
+      | .error e => [some (.error e, g)]
+      | .ok t' => some (.ok t', g) :: filterSeqRepeat g t' (seqKernelAfter kernel names) dim n
 
 /-- `Track.smooth(width)`: `filter_seq(self, GaussianKernel(width))`; `f`, `support = 3·width`,
 `S = int(support)` describe the Gaussian kernel, on which `setFilterBoundary` is never called. -/
